@@ -10,8 +10,8 @@
 //! * evaluation fuel: `eval_tick()` is called per visited statement and per
 //!   loop iteration; past the per-thread limit it panics with
 //!   [`FuelExhausted`]. Enabled per thread with `set_eval_fuel(limit)`.
-//! * extension paths: `paths_begin()` / `paths_tick()` bound the size of one
-//!   cartesian product built by `selector::extend::functions::paths`. Enabled
+//! * extension paths: `paths_tick()` bounds the number of paths built by
+//!   `selector::extend::functions::paths` (cartesian products). Enabled
 //!   per thread with `set_paths_fuel(limit)`.
 //! * call depth: `depth_guard()` counts the nesting of user-defined callables;
 //!   past the per-thread limit it panics with [`FuelExhausted`]. Enabled per
@@ -168,17 +168,16 @@ thread_local! {
     static PATHS_TICKS: Cell<u64> = const { Cell::new(0) };
 }
 
-/// Budget for the number of paths one call of `selector::extend::functions::paths`
-/// (a cartesian product) may build on this thread; `0` disables.
+/// Budget for the number of paths that `selector::extend::functions::paths`
+/// (cartesian products) may build on this thread until the budget is set
+/// again; `0` disables.
 pub fn set_paths_fuel(limit: u64) {
     PATHS_LIMIT.with(|c| c.set(limit));
     PATHS_TICKS.with(|c| c.set(0));
 }
 
 #[inline]
-pub(crate) fn paths_begin() {
-    PATHS_TICKS.with(|c| c.set(0));
-}
+pub(crate) fn paths_begin() {}
 
 #[inline]
 pub(crate) fn paths_tick() {
